@@ -5,21 +5,21 @@ open Model.C15
 
 def DecEnc (t : Ty) : Prop :=
   ∀ (c : Cfg) (flex : Bool) (v : Val) (bs rest : Bytes),
-    schemaOK c.ver t = true → enc c.ver flex t v = some bs → bs.length + rest.length ≤ c.cap →
+    0 ≤ c.ver → schemaOK c.ver t = true → enc c.ver flex t v = some bs → bs.length + rest.length ≤ c.cap →
     dec c flex t (bs ++ rest) = .ok (canon c.ver t v) rest
 
 /-- `Q1`: the body fields; `Q2`: the tagged fields, applied from a raw tag list that contains exactly the struct's own entries
 for every defined tag. -/
 def DecEncF (fs : Fields) : Prop :=
-  ∀ (c : Cfg) (flex : Bool), schemaOKF c.ver fs = true →
+  ∀ (c : Cfg) (flex : Bool), 0 ≤ c.ver → schemaOKF c.ver flex fs = true →
     (∀ (vals : Vals) (body rest : Bytes), encFields c.ver flex fs vals = some body → body.length + rest.length ≤ c.cap →
       decFields c flex fs (body ++ rest) = .ok (canonFields c.ver false fs vals) rest) ∧
-    (∀ (vals : Vals) (tags raw : List (Nat × Bytes)), encTags c.ver flex fs vals = some tags → tagsDistinct fs = true →
+    (∀ (vals : Vals) (tags raw : List (Nat × Bytes)), flex = true → encTags c.ver flex fs vals = some tags → tagsDistinct fs = true →
       (∀ k ∈ knownTags fs, raw.filter (fun e => e.1 == k) = tags.filter (fun e => e.1 == k)) →
       (∀ e ∈ tags, e.2.length ≤ c.cap) →
       applyTags c flex fs raw (canonFields c.ver false fs vals) = .ok (canonFields c.ver true fs vals) [])
 
-theorem decList_encList (c : Cfg) (flex : Bool) (t : Ty) (ht : DecEnc t) (hs : schemaOK c.ver t = true) :
+theorem decList_encList (c : Cfg) (flex : Bool) (t : Ty) (ht : DecEnc t) (hv : 0 ≤ c.ver) (hs : schemaOK c.ver t = true) :
     ∀ (vs : Vals) (b rest : Bytes), encList c.ver flex t vs = some b → b.length + rest.length ≤ c.cap →
       decList c flex t vs.length (b ++ rest) = .ok (canonList c.ver t vs) rest := by
   intro vs
@@ -35,7 +35,7 @@ theorem decList_encList (c : Cfg) (flex : Bool) (t : Ty) (ht : DecEnc t) (hs : s
     rename_i a b' ha hb'
     subst h
     simp only [List.length_append] at hcap
-    have h1 := ht c flex v a (b' ++ rest) hs ha (by simp only [List.length_append]; omega)
+    have h1 := ht c flex v a (b' ++ rest) hv hs ha (by simp only [List.length_append]; omega)
     have h2 := ih b' rest hb' (by omega)
     simp [Vals.length, decList, List.append_assoc, h1, h2, canonList]
 
